@@ -458,9 +458,37 @@ def sc_tables(ctx):
     gps = au.params(gw)
     wcalls = [c for c in au.calls(gw) if ast.unparse(c.func) ==
               'core.restrict_weights']
-    ctx.anchor(len(wcalls) == 3, 'three restrict_weights calls')
+    if len(wcalls) != 3:
+        # a wrapper around the kernel that does not always return the
+        # kernel's weights is a violation, not a vanished anchor
+        for h in ast.walk(gw):
+            if isinstance(h, ast.FunctionDef) and h is not gw:
+                rets = [r for r in au.walk_local(h)
+                        if isinstance(r, ast.Return)]
+                inner = [r for r in rets if isinstance(r.value, ast.Call) and
+                         ast.unparse(r.value.func) == 'core.restrict_weights']
+                other = [r for r in rets if r not in inner]
+                if inner and other:
+                    gs = [ast.unparse(t) for t, _ in au.guards_of(other[0], h)]
+                    ctx.fail('C04.W.callsite', '_get_restriction_weights: '
+                             f'wrapper `{h.name}`', f'`{h.name}` returns '
+                             f'`{au.stext(other[0])[:60]}` instead of the '
+                             f'weights of core.restrict_weights under {gs}: '
+                             'restriction no longer uses the weights the '
+                             'prolongation is the transpose of for the grids '
+                             'that condition accepts', ctx.where(sm, other[0]))
+                    wcalls = []
+                    break
+        else:
+            ctx.anchor(False, 'three restrict_weights calls')
     for c in wcalls:
         args = [ast.unparse(x) for x in c.args]
+        if len(args) != 6 or any(isinstance(x, ast.Starred) for x in c.args):
+            ctx.fail('C04.W.callsite', '_get_restriction_weights: call of '
+                     'the weights kernel', f'arguments {args} are not the '
+                     'six (fine nodes, centres, widths, coarse nodes, '
+                     'centres, widths) of one axis', ctx.where(sm, c))
+            continue
         axes = {x[-1] for x in args[:2] + args[3:5]} | {
             'xyz'[int(x[-2])] for x in (args[2], args[5])}
         ctx.anchor(len(axes) == 1, f'one axis per restrict_weights call: '
